@@ -223,9 +223,54 @@ func hypsAt(b *ssa.BasicBlock) []Hyp {
 		if !ok || p.Succs[0] == p.Succs[1] {
 			continue
 		}
+		if !wrapFree(iff.Cond, p) {
+			continue // the comparison is over a possibly wrapped value: it says nothing about the ideal integers
+		}
 		out = append(out, cmpHyps(iff.Cond, p.Succs[0] == cur)...)
 	}
 	return out
+}
+
+// wrapFree: every unsigned subtraction inside the comparison's operands is
+// shown non-wrapping by comparisons that dominate the comparison itself.
+func wrapFree(cond ssa.Value, at *ssa.BasicBlock) bool {
+	var subs []*ssa.BinOp
+	seen := map[ssa.Value]bool{}
+	var walk func(v ssa.Value, d int)
+	walk = func(v ssa.Value, d int) {
+		if v == nil || seen[v] || d > 8 {
+			return
+		}
+		seen[v] = true
+		switch x := v.(type) {
+		case *ssa.BinOp:
+			if x.Op == token.SUB && isUnsigned(x.Type()) {
+				subs = append(subs, x)
+			}
+			walk(x.X, d+1)
+			walk(x.Y, d+1)
+		case *ssa.UnOp:
+			if x.Op == token.NOT {
+				walk(x.X, d+1)
+			}
+		case *ssa.Convert:
+			walk(x.X, d+1)
+		}
+	}
+	walk(cond, 0)
+	if len(subs) == 0 {
+		return true
+	}
+	var hyps []Hyp
+	if id := at.Idom(); id != nil || len(at.Preds) == 1 {
+		hyps = hypsAt(at)
+	}
+	for _, sb := range subs {
+		if ok, _ := entails(hyps, linOf(sb.Y).add(linOf(sb.X), -1)); !ok {
+			return false
+		}
+	}
+	return true
 }
 
 // edgeHyps: the comparisons that hold when control enters phiBlock from pred #i
@@ -234,7 +279,7 @@ func edgeHyps(phiBlock *ssa.BasicBlock, i int) []Hyp {
 	p := phiBlock.Preds[i]
 	out := hypsAt(p)
 	if len(p.Instrs) > 0 {
-		if iff, ok := p.Instrs[len(p.Instrs)-1].(*ssa.If); ok && p.Succs[0] != p.Succs[1] {
+		if iff, ok := p.Instrs[len(p.Instrs)-1].(*ssa.If); ok && p.Succs[0] != p.Succs[1] && wrapFree(iff.Cond, p) {
 			out = append(out, cmpHyps(iff.Cond, p.Succs[0] == phiBlock)...)
 		}
 	}
